@@ -307,6 +307,23 @@ def run_case(case, ctx):
                               'eligible now %r (subset_chunks=%r)' % (i1, i2, np.asarray(rr.value).tolist()[:20], e[:20], sc3),
                               dict(feats, after_reassignment=True))
                 break
+    # history: the caller keeps ONE subset buffer and refills it in place between two requests; each request must
+    # honour the subset as it is when the request is made
+    if len(t) >= 4:
+        buf = np.arange(len(t) // 2, dtype=np.int64)
+        allc = sorted(set(clusters.tolist()))
+        ctx.count(1, cell=('subset_buffer_refilled',))
+        for step in range(3):
+            rr = call(sel, None, allc, subset_spikes=buf)
+            e = sorted(set(buf.tolist()))
+            if not rr.ok:
+                ctx.violation('raised', desc, 'request with a reused subset buffer raised %r' % rr.exc, dict(feats, subset_buffer=True), tb=rr.tb)
+                break
+            if np.asarray(rr.value).tolist() != e:
+                ctx.violation('bad_selection', dict(desc, subset_buffer=buf.tolist(), step=step), 'request %d with the caller\'s subset buffer (refilled in place): '
+                              'returned %r, the subset holds %r' % (step, np.asarray(rr.value).tolist()[:20], e[:20]), dict(feats, subset_buffer=True))
+                break
+            buf[:] = (buf + len(buf) // 2 + 1) % len(t) if step == 0 else buf[::-1].copy()
     if not unchanged_inputs:
         ctx.violation('inputs_modified', desc, 'the selector altered the per-cluster spike arrays of the caller', feats)
     ctx.sample({k: desc[k] for k in ('bounds', 'times', 'n_chunks_kept', 'count', 'requested', 'subset_chunks')}, every=701)
